@@ -232,8 +232,11 @@ def build_lib(extra_flags=(), log=None):
         os.replace(tmp, lib)
         # keep the cache small: drop older archives
         for old in glob.glob(os.path.join(libdir, 'libaitb-*.a')):
-            if old != lib and time.time() - os.path.getmtime(old) > 6 * 3600:
-                os.remove(old)
+            try:   # other runs share the cache: the file may vanish between glob and stat
+                if old != lib and time.time() - os.path.getmtime(old) > 6 * 3600:
+                    os.remove(old)
+            except OSError:
+                pass
     return lib, '\n'.join(logs)
 
 
